@@ -82,7 +82,8 @@ typedef struct {
 /* artificially imposed implementation limits */
 #define TAR_MAX_SYMLINK_LEN (65536)
 #define TAR_MAX_PATH_LEN (65536)
-#define TAR_MAX_PAX_LEN (65536)
+/* has to hold extended attribute values of up to 64 KiB each */
+#define TAR_MAX_PAX_LEN (1024 * 1024)
 #define TAR_MAX_SPARSE_ENT (65536)
 
 #ifdef __cplusplus
